@@ -2,6 +2,7 @@
 C10 — helper lemmas for the property theorems of `Theorems.lean`.
 -/
 import FaxVerif.C10.Spec
+set_option linter.unusedSimpArgs false
 namespace FaxVerif.C10
 
 /-! ### 1. parse_type -/
@@ -41,7 +42,6 @@ theorem stripStars_gaps (gaps : List (List Char)) (hg : ∀ g ∈ gaps, allWs g 
     rw [ih hgs, stripStars_star, stripStars_ws _ _ _ (by rw [allWs_reverse]; exact hg0)]
     simp only [List.length_cons]
     congr 1
-    omega
 
 theorem dropWhile_ws_append (w r : List Char) (hw : allWs w = true) :
     (w ++ r).dropWhile isPyWs = r.dropWhile isPyWs := by
@@ -155,5 +155,608 @@ theorem stars_reverse (k : Nat) : (stars k).reverse = stars k := by simp [stars]
 theorem isPrefixOf_append_of_length {a b c : List Char} (h : a.isPrefixOf b = true) : a.isPrefixOf (b ++ c) = true := by
   rw [List.isPrefixOf_iff_prefix] at h ⊢
   exact List.IsPrefix.trans h (List.prefix_append b c)
+
+
+theorem full_eq_decorate (name : List Char) (k : Nat) (c : Bool) :
+    (⟨name, k, c⟩ : Parsed).full = decorate c name [] (List.replicate k []) [] := by
+  simp [Parsed.full, decorate, stars_eq_flatMap]
+
+theorem endsClean_of_append (u : List Char) (c : Char) (h1 : isPyWs c = false) (h2 : c ≠ '*') :
+    EndsClean (u ++ [c]) := ⟨c, by simp, h1, h2⟩
+
+/-- shape of the string left after the star loop and the strip -/
+theorem stripped_shape (s : List Char) :
+    let t := (stripStars s.reverse 0).1.reverse.dropWhile isPyWs
+    (∀ c, t.head? = some c → isPyWs c = false) ∧ (t = [] ∨ EndsClean t) := by
+  intro t
+  refine ⟨dropWhile_head_not _, ?_⟩
+  rcases stripStars_result s.reverse 0 with h | ⟨c, r, h, h1, h2⟩
+  · left; show ((stripStars s.reverse 0).1.reverse.dropWhile isPyWs) = []; rw [h]; rfl
+  · right
+    show EndsClean ((stripStars s.reverse 0).1.reverse.dropWhile isPyWs)
+    rw [h, List.reverse_cons, dropWhile_append_last _ _ h1]
+    exact endsClean_of_append _ c h1 h2
+
+theorem prefix_split {t : List Char} (h : constPrefix.isPrefixOf t = true) : t = constPrefix ++ t.drop 6 := by
+  rw [List.isPrefixOf_iff_prefix] at h
+  obtain ⟨u, hu⟩ := h
+  rw [← hu]
+  simp [constPrefix]
+
+theorem endsClean_drop_const {t : List Char} (h : constPrefix.isPrefixOf t = true) (he : EndsClean t) :
+    EndsClean (t.drop 6) := by
+  have hs := prefix_split h
+  obtain ⟨c, hc, h1, h2⟩ := he
+  generalize t.drop 6 = u at hs ⊢
+  subst hs
+  rcases List.eq_nil_or_concat u with h | ⟨u', a, h⟩
+  · subst h; simp [constPrefix] at hc; subst hc; simp [isPyWs] at h1
+  · subst h
+    rw [List.concat_eq_append, ← List.append_assoc, List.getLast?_concat] at hc
+    cases hc
+    rw [List.concat_eq_append]
+    exact endsClean_of_append u' c h1 h2
+
+theorem parse_full_idem (s : List Char) : parseType (parseType s).full = parseType s := by
+  have hshape := stripped_shape s
+  have hp : parseType s =
+      (if constPrefix.isPrefixOf ((stripStars s.reverse 0).1.reverse.dropWhile isPyWs) then
+        ⟨((stripStars s.reverse 0).1.reverse.dropWhile isPyWs).drop 6, (stripStars s.reverse 0).2, true⟩
+       else ⟨(stripStars s.reverse 0).1.reverse.dropWhile isPyWs, (stripStars s.reverse 0).2, false⟩) := rfl
+  generalize (stripStars s.reverse 0).1.reverse.dropWhile isPyWs = t at hshape hp
+  generalize (stripStars s.reverse 0).2 = k at hp
+  obtain ⟨hhead, hlast⟩ := hshape
+  rw [hp]
+  by_cases hc : constPrefix.isPrefixOf t = true
+  · simp only [hc, if_true]
+    have hne : t ≠ [] := by intro h; subst h; simp [constPrefix] at hc
+    have he : EndsClean t := by rcases hlast with h | h; exact absurd h hne; exact h
+    rw [full_eq_decorate]
+    have := parse_decorate_gen true (t.drop 6) [] [] (List.replicate k []) (endsClean_drop_const hc he)
+      (by intro h; cases h) rfl rfl (by intro g hg; rw [List.eq_of_mem_replicate hg]; rfl)
+    simpa using this
+  · have hc' : constPrefix.isPrefixOf t = false := eq_false_of_ne_true hc
+    simp only [hc', Bool.false_eq_true, if_false]
+    rcases hlast with h | he
+    · subst h
+      simp only [Parsed.full, Bool.false_eq_true, if_false, List.nil_append]
+      unfold parseType
+      rw [stars_reverse, stripStars_stars]
+      simp [constPrefix]
+    · rw [full_eq_decorate]
+      have := parse_decorate_gen false t [] [] (List.replicate k []) he
+        (fun _ => ⟨hhead, hc'⟩) rfl rfl (by intro g hg; rw [List.eq_of_mem_replicate hg]; rfl)
+      simpa using this
+
+
+/-! ### 2. member access: closed form -/
+
+theorem rep_succ' (k : Nat) (s : String) : rep (k + 1) s = rep k s ++ s := by
+  induction k with
+  | zero => simp [rep]
+  | succ k ih =>
+    show s ++ rep (k + 1) s = (s ++ rep k s) ++ s
+    rw [ih, String.append_assoc]
+
+theorem wrapN_closed : ∀ (k : Nat) (x : String), wrapN k x = rep k "(*" ++ x ++ rep k ")"
+  | 0, x => by simp [wrapN, rep]
+  | k + 1, x => by
+    rw [wrapN, wrapN_closed k, wrapDeref, rep_succ' k "(*"]
+    show _ = _ ++ x ++ (")" ++ rep k ")")
+    simp only [String.append_assoc]
+
+theorem render_wrapE : ∀ (k : Nat) (e : CExpr), render (wrapE k e) = wrapN k (render e)
+  | 0, e => rfl
+  | k + 1, e => by
+    rw [wrapE, render_wrapE k, wrapN]
+    congr 1
+
+/-! ### 3. typing of the synthesised access -/
+
+theorem find_mem {reg : Registry} {t m : String} {i : Info} (h : reg.find t m = some i) :
+    ((t, m), i) ∈ reg := by
+  induction reg with
+  | nil => simp [Registry.find] at h
+  | cons x rest ih =>
+    obtain ⟨⟨t', m'⟩, i'⟩ := x
+    unfold Registry.find at h
+    by_cases hx : t' = t ∧ m' = m
+    · simp only [hx, and_self, if_true, Option.some.injEq] at h
+      obtain ⟨rfl, rfl⟩ := hx; subst h; simp
+    · simp only [hx, if_false] at h
+      exact List.mem_cons_of_mem _ (ih h)
+
+theorem hasStar_of_find {D : Decls} {t m : String} {i : Info} (h : D.reg.find t m = some i)
+    (l : Nat) (hl : l < i.deref) : D.hasStar t l = true := by
+  unfold Decls.hasStar
+  rw [List.any_eq_true]
+  exact ⟨_, find_mem h, by simp [hl]⟩
+
+theorem methodOf_declared {D : Decls} {t m : String} {i : Info} (h : D.reg.find t m = some i) :
+    D.methodOf t i.deref m = some (ctOf i.rty.term) := by
+  simp [Decls.methodOf, h]
+
+theorem methodOf_declared_inv {D : Decls} {t m : String} {i : Info} (h : D.reg.find t m = some i)
+    {l : Nat} {r : CT} (hm : D.methodOf t l m = some r) : l = i.deref ∧ r = ctOf i.rty.term := by
+  simp only [Decls.methodOf, h] at hm
+  by_cases hl : i.deref = l
+  · simp only [hl, if_true, Option.some.injEq] at hm; exact ⟨hl.symm, hm.symm⟩
+  · simp [hl] at hm
+
+/-- the type of `e` under `j` applications of `(*·)`: pointer levels are consumed first, then
+the `operator*` levels of the class -/
+theorem wrapE_type (D : Decls) (Γ : List (String × CT)) :
+    ∀ (j : Nat) (e : CExpr) (c : String) (l d : Nat),
+      (∃ t, typeOf D Γ e = some t ∧ t.cls = c ∧ t.lvl = l ∧ t.depth = d) →
+      (∀ l', l ≤ l' → l' < l + (j - d) → D.hasStar c l' = true) →
+      ∃ t, typeOf D Γ (wrapE j e) = some t ∧ t.cls = c ∧ t.lvl = l + (j - d) ∧ t.depth = d - j := by
+  intro j
+  induction j with
+  | zero => intro e c l d h _; simpa [wrapE] using h
+  | succ j ih =>
+    intro e c l d ⟨t, ht, hc, hl, hd⟩ hstar
+    rw [wrapE]
+    cases d with
+    | succ d' =>
+      have := ih (.paren (.deref e)) c l d'
+        ⟨{ cls := t.cls, lvl := t.lvl, depth := d' }, by simp [typeOf, ht, hd], hc, hl, rfl⟩
+        (fun l' h1 h2 => hstar l' h1 (by omega))
+      obtain ⟨t', h1, h2, h3, h4⟩ := this
+      exact ⟨t', h1, h2, by omega, by omega⟩
+    | zero =>
+      have hs : D.hasStar t.cls t.lvl = true := by rw [hc, hl]; exact hstar l (Nat.le_refl _) (by omega)
+      have := ih (.paren (.deref e)) c (l + 1) 0
+        ⟨{ cls := t.cls, lvl := t.lvl + 1, depth := 0 }, by simp [typeOf, ht, hd, hs], hc, by simp [hl], rfl⟩
+        (fun l' h1 h2 => hstar l' (by omega) (by omega))
+      obtain ⟨t', h1, h2, h3, h4⟩ := this
+      exact ⟨t', h1, h2, by omega, by omega⟩
+
+/-- conversely: whenever the wrapped expression is typed at all, its type is that one -/
+theorem wrapE_type_inv (D : Decls) (Γ : List (String × CT)) :
+    ∀ (j : Nat) (e : CExpr) (t0 t : CT), typeOf D Γ e = some t0 → typeOf D Γ (wrapE j e) = some t →
+      t.cls = t0.cls ∧ t.lvl = t0.lvl + (j - t0.depth) ∧ t.depth = t0.depth - j := by
+  intro j
+  induction j with
+  | zero => intro e t0 t h0 h; rw [wrapE, h0] at h; cases h; simp
+  | succ j ih =>
+    intro e t0 t h0 h
+    rw [wrapE] at h
+    cases hd : t0.depth with
+    | succ d' =>
+      have h1 : typeOf D Γ (.paren (.deref e)) = some { cls := t0.cls, lvl := t0.lvl, depth := d' } := by
+        simp [typeOf, h0, hd]
+      obtain ⟨a, b, c⟩ := ih _ _ t h1 h
+      simp only at a b c
+      exact ⟨a, by omega, by omega⟩
+    | zero =>
+      by_cases hs : D.hasStar t0.cls t0.lvl = true
+      · have h1 : typeOf D Γ (.paren (.deref e)) = some { cls := t0.cls, lvl := t0.lvl + 1, depth := 0 } := by
+          simp [typeOf, h0, hd, hs]
+        obtain ⟨a, b, c⟩ := ih _ _ t h1 h
+        simp only at a b c
+        exact ⟨a, by omega, by omega⟩
+      · have h1 : typeOf D Γ (.paren (.deref e)) = none := by simp [typeOf, h0, hd, hs]
+        -- an ill typed expression stays ill typed under further wraps
+        exfalso
+        have key : ∀ (j : Nat) (e' : CExpr), typeOf D Γ e' = none → typeOf D Γ (wrapE j e') = none := by
+          intro j
+          induction j with
+          | zero => intro e' h; exact h
+          | succ j ih' => intro e' h; rw [wrapE]; exact ih' _ (by simp [typeOf, h])
+        rw [key j _ h1] at h
+        cases h
+
+theorem typeOf_accessE_none (D : Decls) (Γ : List (String × CT)) (e : CExpr) (k : Nat) (m : String) :
+    typeOf D Γ (accessE e k m none) =
+      (match typeOf D Γ (wrapE (k - 1) e) with
+       | none => none
+       | some t => D.select t (decide (0 < k)) m) := by
+  simp only [accessE, typeOf]
+  cases typeOf D Γ (wrapE (k - 1) e) <;> rfl
+
+theorem typeOf_accessE_lit (D : Decls) (Γ : List (String × CT)) (e : CExpr) (k : Nat) (m : String) (n : Nat) :
+    typeOf D Γ (accessE e k m (some (.lit n))) =
+      (match typeOf D Γ (wrapE (k - 1) e) with
+       | none => none
+       | some t => D.select t (decide (0 < k)) m) := by
+  simp only [accessE, typeOf]
+  cases typeOf D Γ (wrapE (k - 1) e) <;> rfl
+
+/-- selection after the wraps of an access of total indirection `d + n` finds level `n` -/
+theorem select_after_wraps (D : Decls) (c : String) (d n : Nat) (m : String) (t : CT)
+    (h1 : t.cls = c) (h2 : t.lvl = 0 + ((d + n - 1) - d)) (h3 : t.depth = d - (d + n - 1)) :
+    D.select t (decide (0 < d + n)) m = D.methodOf c n m := by
+  unfold Decls.select
+  by_cases hk : d + n = 0
+  · have hd : d = 0 := by omega
+    have hn : n = 0 := by omega
+    subst hd hn
+    simp at h2 h3
+    simp [h3, h2, h1]
+  · cases n with
+    | zero =>
+      have : t.depth = 1 := by omega
+      have hl : t.lvl = 0 := by omega
+      have hd : 0 < d := by omega
+      simp [this, hl, h1, hd]
+    | succ n' =>
+      have : t.depth = 0 := by omega
+      have hl : t.lvl = n' := by omega
+      simp [this, hl, h1]
+
+
+/-! ### 4. chains -/
+
+/-- what is known of the translator's state on a chain: the value expression has, in C++, exactly
+the type the translator holds for it; collection types agree with the class table; the loops
+opened so far type check and bind the variables in scope. -/
+structure ChainInv (D : Decls) (Γ0 : List (String × CT)) (s : ChainSt) : Prop where
+  typed : typeOf D s.gamma s.e = some (ctOf s.ty.term)
+  tyok : tyOk D s.ty = true
+  loops : loopsOk D Γ0 s.loops = some s.gamma
+  declared : isDeclaredValue s.e = true
+
+theorem consistent_find {D : Decls} (hc : D.consistent = true) {t m : String} {i : Info}
+    (h : D.reg.find t m = some i) : tyOk D i.rty = true ∧ m ≠ "at" := by
+  unfold Decls.consistent at hc
+  rw [List.all_eq_true] at hc
+  have := hc _ (find_mem h)
+  simpa using this
+
+theorem consistent_no_at {D : Decls} (hc : D.consistent = true) (t : String) : D.reg.find t "at" = none := by
+  cases h : D.reg.find t "at" with
+  | none => rfl
+  | some i => exact absurd rfl (consistent_find hc h).2
+
+theorem loopsOk_append (D : Decls) : ∀ (ls : List (String × CExpr)) (Γ0 Γ : List (String × CT)) (v : String) (c : CExpr) (t E : CT),
+    loopsOk D Γ0 ls = some Γ → typeOf D Γ c = some t → D.iterOfTy t = some E →
+    loopsOk D Γ0 (ls ++ [(v, c)]) = some ((v, E) :: Γ) := by
+  intro ls
+  induction ls with
+  | nil => intro Γ0 Γ v c t E h ht hE; simp [loopsOk] at h; subst h; simp [loopsOk, ht, hE]
+  | cons x ls ih =>
+    intro Γ0 Γ v c t E h ht hE
+    obtain ⟨v', c'⟩ := x
+    simp only [List.cons_append, loopsOk] at h ⊢
+    cases h1 : typeOf D Γ0 c' with
+    | none => simp [h1] at h
+    | some t' =>
+      simp only [h1] at h ⊢
+      cases h2 : D.iterOfTy t' with
+      | none => simp [h2] at h
+      | some E' =>
+        simp only [h2] at h ⊢
+        exact ih _ _ v c t E h ht hE
+
+theorem typeOf_access_declared (D : Decls) (Γ : List (String × CT)) (e : CExpr) (T : Term) (m : String)
+    (i : Info) (arg : Option Nat) (he : typeOf D Γ e = some (ctOf T)) (hf : D.reg.find T.name m = some i) :
+    typeOf D Γ (accessE e (T.depth + i.deref) m (arg.map CExpr.lit)) = some (ctOf i.rty.term) := by
+  obtain ⟨t, h1, h2, h3, h4⟩ := wrapE_type D Γ (T.depth + i.deref - 1) e T.name 0 T.depth
+    ⟨ctOf T, he, rfl, rfl, rfl⟩ (fun l' _ hl => hasStar_of_find hf l' (by omega))
+  have hsel := select_after_wraps D T.name T.depth i.deref m t h2 h3 h4
+  cases arg with
+  | none => simp only [Option.map_none]; rw [typeOf_accessE_none, h1]; simp only; rw [hsel, methodOf_declared hf]
+  | some n => simp only [Option.map_some]; rw [typeOf_accessE_lit, h1]; simp only; rw [hsel, methodOf_declared hf]
+
+theorem typeOf_access_method (D : Decls) (Γ : List (String × CT)) (e : CExpr) (T : Term) (m : String)
+    (arg : Option Nat) (r : CT) (he : typeOf D Γ e = some (ctOf T)) (hm : D.methodOf T.name 0 m = some r) :
+    typeOf D Γ (accessE e (T.depth + 0) m (arg.map CExpr.lit)) = some r := by
+  obtain ⟨t, h1, h2, h3, h4⟩ := wrapE_type D Γ (T.depth + 0 - 1) e T.name 0 T.depth
+    ⟨ctOf T, he, rfl, rfl, rfl⟩ (fun l' _ hl => by omega)
+  have hsel := select_after_wraps D T.name T.depth 0 m t h2 h3 h4
+  cases arg with
+  | none => simp only [Option.map_none]; rw [typeOf_accessE_none, h1]; simp only; rw [hsel, hm]
+  | some n => simp only [Option.map_some]; rw [typeOf_accessE_lit, h1]; simp only; rw [hsel, hm]
+
+theorem isDeclared_accessE (e : CExpr) (k : Nat) (m : String) (arg : Option CExpr) :
+    isDeclaredValue (accessE e k m arg) = true := by
+  cases arg <;> rfl
+
+theorem methodOf_fallback (D : Decls) (c m : String) (hf : D.reg.find c m = none) (hw : (c, m) ∈ D.warned)
+    (hb : c ∉ Generated.C10.baseTypes) (hat : m ≠ "at") : D.methodOf c 0 m = some fallbackCT := by
+  simp [Decls.methodOf, hf, hw, hb, hat, Generated.C10.fallbackDeref]
+
+theorem methodOf_at (D : Decls) (c : String) (E : CT) (hf : D.reg.find c "at" = none) (hi : D.iterOf c = some E) :
+    D.methodOf c 0 "at" = some E := by
+  simp [Decls.methodOf, hf, hi]
+
+/-- one translator step preserves the invariant -/
+theorem step_inv (D : Decls) (Γ0 : List (String × CT)) (hc : D.consistent = true)
+    (hnoat : ∀ w ∈ D.warned, w.2 ≠ "at") (s s' : ChainSt) (st : Step)
+    (h : step D.reg s st = .ok s') (hinv : ChainInv D Γ0 s)
+    (hw : ∀ w ∈ s'.warns, w ∈ D.warned) (hd : ∀ d ∈ s'.iterDepths, d ≤ 1) : ChainInv D Γ0 s' := by
+  cases st with
+  | call m arg =>
+    unfold step at h
+    simp only [determineTypeMf] at h
+    cases hf : D.reg.find s.ty.term.name m with
+    | some i =>
+      simp only [hf, Except.ok.injEq] at h
+      subst h
+      exact ⟨typeOf_access_declared D _ _ _ m i arg hinv.typed hf, (consistent_find hc hf).1, hinv.loops,
+        isDeclared_accessE _ _ _ _⟩
+    | none =>
+      simp only [hf] at h
+      by_cases hb : s.ty.term.name ∈ Generated.C10.baseTypes
+      · simp [hb] at h
+      · simp only [hb, if_false, Except.ok.injEq] at h
+        subst h
+        simp only [if_true] at hw
+        have hwm : (s.ty.term.name, m) ∈ D.warned := hw _ (by simp)
+        have hat : m ≠ "at" := hnoat _ hwm
+        refine ⟨?_, rfl, hinv.loops, isDeclared_accessE _ _ _ _⟩
+        have := typeOf_access_method D s.gamma s.e s.ty.term m arg fallbackCT hinv.typed
+          (methodOf_fallback D _ _ hf hwm hb hat)
+        simpa [fallbackInfo, Generated.C10.fallbackDeref, fallbackCT, ctOf, RTy.term] using this
+  | index i =>
+    unfold step at h
+    cases hty : s.ty with
+    | value t => simp [hty] at h
+    | coll arr elem =>
+      simp only [hty, Except.ok.injEq] at h
+      subst h
+      have htyok := hinv.tyok
+      rw [hty] at htyok
+      simp only [tyOk, decide_eq_true_eq] at htyok
+      have htyped := hinv.typed
+      rw [hty] at htyped
+      refine ⟨?_, rfl, hinv.loops, rfl⟩
+      have := typeOf_access_method D s.gamma s.e arr "at" (some i) (ctOf elem) htyped
+        (methodOf_at D _ _ (consistent_no_at hc _) htyok)
+      simpa [RTy.term] using this
+  | each =>
+    unfold step at h
+    cases hty : s.ty with
+    | value t => simp [hty] at h
+    | coll arr elem =>
+      simp only [hty, Except.ok.injEq] at h
+      subst h
+      have htyok := hinv.tyok
+      rw [hty] at htyok
+      simp only [tyOk, decide_eq_true_eq] at htyok
+      have htyped := hinv.typed
+      rw [hty] at htyped
+      simp only [RTy.term] at htyped
+      have hdepth : arr.depth ≤ 1 := hd arr.depth (by simp)
+      refine ⟨by simp [typeOf, RTy.term], rfl, ?_, rfl⟩
+      by_cases h0 : arr.depth = 0
+      · simp only [h0, if_true]
+        apply loopsOk_append D _ _ _ _ _ (ctOf arr) (ctOf elem) hinv.loops htyped
+        simp [Decls.iterOfTy, ctOf, h0, htyok]
+      · have h1 : arr.depth = 1 := by omega
+        simp only [h0, if_false]
+        apply loopsOk_append D _ _ _ _ _ { cls := arr.name, lvl := 0, depth := 0 } (ctOf elem) hinv.loops
+        · simp [typeOf, htyped, ctOf, h1]
+        · simp [Decls.iterOfTy, htyok]
+
+theorem step_mono (reg : Registry) (s s' : ChainSt) (st : Step) (h : step reg s st = .ok s') :
+    (∀ w ∈ s.warns, w ∈ s'.warns) ∧ (∀ d ∈ s.iterDepths, d ∈ s'.iterDepths) := by
+  cases st with
+  | call m arg =>
+    unfold step at h
+    cases hd : determineTypeMf reg s.ty.term m with
+    | error e => simp [hd] at h
+    | ok r =>
+      obtain ⟨info, warned⟩ := r
+      simp only [hd, Except.ok.injEq] at h
+      subst h
+      constructor
+      · intro w hw; cases warned <;> simp [hw]
+      · intro d hd; exact hd
+  | index i =>
+    unfold step at h
+    cases hty : s.ty with
+    | value t => simp [hty] at h
+    | coll arr elem => simp only [hty, Except.ok.injEq] at h; subst h; exact ⟨fun _ h => h, fun _ h => h⟩
+  | each =>
+    unfold step at h
+    cases hty : s.ty with
+    | value t => simp [hty] at h
+    | coll arr elem =>
+      simp only [hty, Except.ok.injEq] at h; subst h
+      exact ⟨fun _ h => h, fun d h => by simp [h]⟩
+
+theorem runChain_mono (reg : Registry) : ∀ (steps : List Step) (s s' : ChainSt), runChain reg steps s = .ok s' →
+    (∀ w ∈ s.warns, w ∈ s'.warns) ∧ (∀ d ∈ s.iterDepths, d ∈ s'.iterDepths) := by
+  intro steps
+  induction steps with
+  | nil => intro s s' h; simp [runChain] at h; subst h; exact ⟨fun _ h => h, fun _ h => h⟩
+  | cons st rest ih =>
+    intro s s' h
+    unfold runChain at h
+    cases h1 : step reg s st with
+    | error e => simp [h1] at h
+    | ok s1 =>
+      simp only [h1] at h
+      obtain ⟨a, b⟩ := step_mono reg s s1 st h1
+      obtain ⟨c, d⟩ := ih s1 s' h
+      exact ⟨fun w hw => c w (a w hw), fun x hx => d x (b x hx)⟩
+
+theorem runChain_inv (D : Decls) (Γ0 : List (String × CT)) (hc : D.consistent = true)
+    (hnoat : ∀ w ∈ D.warned, w.2 ≠ "at") :
+    ∀ (steps : List Step) (s s' : ChainSt), runChain D.reg steps s = .ok s' → ChainInv D Γ0 s →
+      (∀ w ∈ s'.warns, w ∈ D.warned) → (∀ d ∈ s'.iterDepths, d ≤ 1) → ChainInv D Γ0 s' := by
+  intro steps
+  induction steps with
+  | nil => intro s s' h hinv _ _; simp [runChain] at h; subst h; exact hinv
+  | cons st rest ih =>
+    intro s s' h hinv hw hd
+    unfold runChain at h
+    cases h1 : step D.reg s st with
+    | error e => simp [h1] at h
+    | ok s1 =>
+      simp only [h1] at h
+      obtain ⟨a, b⟩ := runChain_mono D.reg rest s1 s' h
+      exact ih s1 s' h (step_inv D Γ0 hc hnoat s s1 st h1 hinv (fun w hw' => hw w (a w hw')) (fun d hd' => hd d (b d hd'))) hw hd
+
+
+/-! ### 5. namespaces and enums -/
+
+theorem splitDotsAux_spec : ∀ (s : List Char) (cur : Seg), '.' ∉ cur →
+    splitDotsAux s cur ≠ [] ∧ ∀ seg ∈ splitDotsAux s cur, '.' ∉ seg := by
+  intro s
+  induction s with
+  | nil => intro cur h; simp [splitDotsAux, h]
+  | cons c r ih =>
+    intro cur h
+    unfold splitDotsAux
+    by_cases hc : c = '.'
+    · simp only [hc, if_true]
+      refine ⟨by simp, ?_⟩
+      intro seg hseg
+      simp only [List.mem_cons] at hseg
+      rcases hseg with rfl | hseg
+      · simpa using h
+      · exact (ih [] (by simp)).2 seg hseg
+    · simp only [hc, if_false]
+      exact ih (c :: cur) (by simp [h, Ne.symm hc])
+
+theorem splitDots_ne_nil (s : List Char) : splitDots s ≠ [] := (splitDotsAux_spec s [] (by simp)).1
+theorem splitDots_no_dot (s : List Char) : ∀ seg ∈ splitDots s, '.' ∉ seg := (splitDotsAux_spec s [] (by simp)).2
+
+theorem mem_addNew {α} [DecidableEq α] (l : List α) (a b : α) : b ∈ addNew l a ↔ b ∈ l ∨ b = a := by
+  unfold addNew
+  by_cases h : a ∈ l
+  · simp only [h, if_true]; constructor
+    · exact Or.inl
+    · rintro (h' | rfl); exact h'; exact h
+  · simp [h]
+
+theorem mem_foldl_addNew {α} [DecidableEq α] (xs : List α) : ∀ (l : List α) (b : α),
+    b ∈ xs.foldl addNew l ↔ b ∈ l ∨ b ∈ xs := by
+  induction xs with
+  | nil => intro l b; simp
+  | cons x xs ih =>
+    intro l b
+    simp only [List.foldl_cons, ih, mem_addNew, List.mem_cons]
+    constructor
+    · rintro ((h | h) | h); exact Or.inl h; exact Or.inr (Or.inl h); exact Or.inr (Or.inr h)
+    · rintro (h | h | h); exact Or.inl (Or.inl h); exact Or.inl (Or.inr h); exact Or.inr h
+
+theorem take_mem_prefixes : ∀ (path : List Seg) (k : Nat), 0 < k → k ≤ path.length → path.take k ∈ prefixes path := by
+  intro path
+  induction path with
+  | nil => intro k h1 h2; simp at h2; omega
+  | cons x xs ih =>
+    intro k h1 h2
+    cases k with
+    | zero => omega
+    | succ k =>
+      simp only [List.take_succ_cons, prefixes, List.mem_cons, List.mem_map]
+      cases k with
+      | zero => left; simp
+      | succ k' =>
+        right
+        exact ⟨xs.take (k' + 1), ih (k' + 1) (by omega) (by simpa using h2), rfl⟩
+
+theorem defineNs_prefix (st : NsState) (path : List Seg) (k : Nat) (h1 : 0 < k) (h2 : k ≤ path.length) :
+    path.take k ∈ (defineNs st path).nss := by
+  simp only [defineNs, mem_foldl_addNew]
+  exact Or.inr (take_mem_prefixes path k h1 h2)
+
+/-- walking down a chain of declared namespaces -/
+theorem resolveFrom_walk (st : NsState) : ∀ (q p : List Seg) (tail : List Seg),
+    (∀ k, 0 < k → k ≤ q.length → p ++ q.take k ∈ st.nss) →
+    resolveFrom st (.ns p) (q ++ tail) = resolveFrom st (.ns (p ++ q)) tail := by
+  intro q
+  induction q with
+  | nil => intro p tail _; simp
+  | cons a q ih =>
+    intro p tail h
+    have h1 : p ++ [a] ∈ st.nss := by simpa using h 1 (by omega) (by simp)
+    simp only [List.cons_append, resolveFrom, resolveStep, h1, if_true]
+    rw [ih (p ++ [a]) tail]
+    · simp
+    · intro k hk1 hk2
+      have := h (k + 1) (by omega) (by simpa using hk2)
+      simpa using this
+
+theorem replaceDots_append (a b : List Char) : replaceDots (a ++ b) = replaceDots a ++ replaceDots b := by
+  induction a with
+  | nil => rfl
+  | cons c a ih =>
+    simp only [List.cons_append, replaceDots]
+    by_cases h : c = '.' <;> simp [h, ih]
+
+theorem replaceDots_id (a : List Char) (h : '.' ∉ a) : replaceDots a = a := by
+  induction a with
+  | nil => rfl
+  | cons c a ih =>
+    simp only [List.mem_cons, not_or] at h
+    simp [replaceDots, Ne.symm h.1, ih h.2]
+
+theorem replaceDots_dotted : ∀ (ns : List Seg), (∀ seg ∈ ns, '.' ∉ seg) →
+    replaceDots (dotted ns) = joinWith [':', ':'] ns := by
+  intro ns
+  induction ns with
+  | nil => intro _; rfl
+  | cons x xs ih =>
+    intro h
+    cases xs with
+    | nil => simp [dotted, joinWith, replaceDots_id x (h x (by simp))]
+    | cons y ys =>
+      have hx := replaceDots_id x (h x (by simp))
+      have := ih (fun seg hs => h seg (by simp [hs]))
+      simp only [dotted, joinWith] at this ⊢
+      rw [replaceDots_append, hx]
+      simp only [replaceDots, if_true]
+      rw [this]
+      simp
+
+theorem joinWith_snoc (sep : List Char) : ∀ (ns : List Seg) (v : Seg), ns ≠ [] →
+    joinWith sep (ns ++ [v]) = joinWith sep ns ++ sep ++ v := by
+  intro ns
+  induction ns with
+  | nil => intro v h; exact absurd rfl h
+  | cons x xs ih =>
+    intro v _
+    cases xs with
+    | nil => simp [joinWith]
+    | cons y ys =>
+      have := ih v (by simp)
+      simp only [List.cons_append, joinWith] at this ⊢
+      rw [this]
+      simp
+
+theorem valueAsCpp_qualified (e : EnumInfo) (v : Seg) (hne : e.ns ≠ []) (hns : ∀ seg ∈ e.ns, '.' ∉ seg)
+    (hv : '.' ∉ v) : valueAsCpp e v = qualified e.ns v := by
+  unfold valueAsCpp qualified
+  rw [replaceDots_append, replaceDots_append, replaceDots_dotted e.ns hns, replaceDots_id v hv,
+    joinWith_snoc _ _ _ hne]
+  rfl
+
+theorem findEnum_spec {st : NsState} {ns : List Seg} {name : Seg} {e : EnumInfo}
+    (h : st.findEnum ns name = some e) : e.ns = ns ∧ e.name = name ∧ e ∈ st.enums := by
+  unfold NsState.findEnum at h
+  have h1 := List.find?_some h
+  have h2 := List.mem_of_find?_eq_some h
+  simp only [decide_eq_true_eq] at h1
+  exact ⟨h1.1, h1.2, h2⟩
+
+/-- after `define_enum` the enum of that name in that namespace exists; it is the new one unless
+one was there before -/
+theorem findEnum_defineEnum (st : NsState) (nsName : List Char) (name : Seg) (values : List Seg) :
+    ∃ e, (defineEnum st nsName name values).findEnum (splitDots nsName) name = some e ∧
+      (st.findEnum (splitDots nsName) name = none → e = ⟨splitDots nsName, name, values⟩) := by
+  unfold defineEnum
+  simp only
+  have hsame : (defineNs st (splitDots nsName)).findEnum (splitDots nsName) name = st.findEnum (splitDots nsName) name := rfl
+  cases h : st.findEnum (splitDots nsName) name with
+  | some e =>
+    rw [hsame, h]
+    exact ⟨e, by rw [hsame, h], by intro h'; cases h'⟩
+  | none =>
+    rw [hsame, h]
+    refine ⟨⟨splitDots nsName, name, values⟩, ?_, fun _ => rfl⟩
+    unfold NsState.findEnum at h ⊢
+    simp only [defineNs]
+    rw [List.find?_append, h]
+    simp
+
+theorem defineEnum_nss (st : NsState) (nsName : List Char) (name : Seg) (values : List Seg) :
+    (defineEnum st nsName name values).nss = (defineNs st (splitDots nsName)).nss := by
+  unfold defineEnum
+  simp only
+  cases (defineNs st (splitDots nsName)).findEnum (splitDots nsName) name <;> rfl
 
 end FaxVerif.C10
